@@ -302,6 +302,18 @@ CLASS_METHODS = [
 ]
 
 
+def connection_overrides() -> List[str]:
+    from harness.lib.core import SRC
+    out = []
+    for f in sorted((SRC / "simulator").rglob("*.py")):
+        for n in ast.walk(ast.parse(f.read_text())):
+            if isinstance(n, ast.ClassDef) and n.name != "IOSoftware":
+                for st in n.body:
+                    if isinstance(st, ast.FunctionDef) and st.name in ("add_connection", "terminate_connection", "clear_connections", "connections"):
+                        out.append(f"{n.name}.{st.name}")
+    return out
+
+
 def lean_str(s: str) -> str:
     return '"' + s.replace("\\", "\\\\").replace('"', '\\"') + '"'
 
@@ -333,6 +345,8 @@ def emit() -> str:
     if not isinstance(ms.value, ast.Constant):
         raise Unrecognised("IOSoftware.max_sessions default is not a literal")
     L.append(f"def maxSessionsDefault : Nat := {ms.value.value}")
+    L.append("/-- classes other than IOSoftware that define one of the connection-bookkeeping methods (the model has one `Conn`) -/")
+    L.append("def connectionOverrides : List String := [" + ", ".join(lean_str(x) for x in connection_overrides()) + "]")
     L.append("")
     L.append("end Primaite.Gen.SoftwareRecv")
     return "\n".join(L) + "\n"
